@@ -86,6 +86,10 @@ class _FieldOfDressed:
         else:
             self.content = None
             setattr(container._xobject, self.name, value)
+            if isinstance(getattr(container._XoStruct, self.name).ftype, Ref):
+                # the reference now denotes another object (or none): the
+                # dressed object kept for the previous referent is stale
+                container.__dict__.pop("_dressed_" + self.name, None)
 
 
 class JEncoder(json.JSONEncoder):
